@@ -44,7 +44,7 @@ class Sandbox:
             e.update(extra)
         return e
 
-    def run(self, args, conf=None, stdin=None, env=None, kind='plain', timeout=60, preload=None):
+    def run(self, args, conf=None, stdin=None, env=None, kind='plain', timeout=60, preload=None, stdout_path=None):
         exe = os.path.join(common.scratch_build(kind), 'mdsort')
         cmd = [exe]
         if conf is not None:
@@ -54,6 +54,10 @@ class Sandbox:
         if preload:
             e['LD_PRELOAD'] = preload
         try:
+            if stdout_path is not None:
+                with open(stdout_path, 'wb') as so:
+                    r = subprocess.run(cmd, cwd=self.root, env=e, input=stdin, stdout=so, stderr=subprocess.PIPE, timeout=timeout)
+                return r.returncode, b'', r.stderr
             r = subprocess.run(cmd, cwd=self.root, env=e, input=stdin, capture_output=True, timeout=timeout)
             return r.returncode, r.stdout, r.stderr
         except subprocess.TimeoutExpired as ex:
